@@ -78,6 +78,12 @@ class ApproxInterp(ArrInterp):
         if name in ("cc3d.connected_components", "scipy.ndimage.label", "scipy.ndimage.measurements.label", "skimage.measure.label"):
             r.lib_calls.append((name, args, kwargs, node))
             a0 = args[0] if args else None
+            if getattr(r, "lib_as_cc", False):
+                # dispatch view: which library labels which side (wherever the call sits)
+                be = "cc3d" if name.startswith("cc3d.") else "scipy" if name.startswith("scipy.") else name
+                r.cca_calls.append((a0, be, node))
+                side = a0.side if isinstance(a0, AArr) else "?"
+                return (AArr("CC_" + side, True), Sym("N_" + side))
             return (Tagged("libout:" + name, [a0]), Sym("N"))
         if name in ("max", "builtin:max", "numpy.max", "numpy.maximum"):
             return Tagged("max", args)
@@ -139,7 +145,8 @@ def check_dispatch(ctx: Ctx):
 
                 def make(prefix, pair=pair, self_obj=self_obj):
                     it_ = ApproxInterp(prog, f, {pp: pair}, self_obj=self_obj, prefix=prefix)
-                    it_.root.no_inline = {cc.qual, fit.qual, ucls.lookup("__init__").qual}
+                    it_.root.no_inline = {fit.qual, ucls.lookup("__init__").qual}
+                    it_.root.lib_as_cc = True
                     holder.append(it_)
                     return it_
 
@@ -148,7 +155,7 @@ def check_dispatch(ctx: Ctx):
                 if len(outs_) > 1:
                     used = []
                     for o_, i_ in zip(outs_, holder):
-                        used.append(sorted({c[1].member if isinstance(c[1], EnumSym) else repr(c[1]) for c in i_.root.cca_calls}))
+                        used.append(sorted({c[1] if isinstance(c[1], str) else repr(c[1]) for c in i_.root.cca_calls}))
                     conds = sorted({norm(d[0]) for o_ in outs_ for d in o_.decisions if isinstance(d[0], ast.AST)})
                     if len({tuple(u) for u in used}) > 1:
                         ctx.violated("R05.1", f, f.node, construct + ":backend", "the backend is not determined by the configured backend and the input's dimensionality: it also depends on " + "; ".join(conds)[:160], {"backends_on_paths": used})
@@ -165,7 +172,7 @@ def check_dispatch(ctx: Ctx):
                 sides = sorted(c[0].side for c in calls if isinstance(c[0], AArr))
                 want_sides = sorted(s for s, e in (("PRED", pe), ("REF", re_)) if not e)
                 ctx.decide("R05.1", f, out.node, construct + ":sides", "connected components are computed exactly for the non-empty sides", sides == want_sides, {"got": sides})
-                bes = {c[1].member if isinstance(c[1], EnumSym) else repr(c[1]) for c in calls}
+                bes = {c[1] if isinstance(c[1], str) else repr(c[1]) for c in calls}
                 if calls:
                     ctx.decide("R05.1", f, out.node, construct + ":backend", f"backend used is {want_be} for both sides", bes == {want_be}, {"got": sorted(bes)})
                 if len(it.root.pair_calls) != 1:
@@ -198,6 +205,36 @@ def check_dispatch(ctx: Ctx):
                         ctx.decide("R05.3", f, pnode, c2, "output dtype is sized for the component ids", False if narrow else None, {"cast_to": txt, "why": "dtype of the semantic input is sized for the semantic label values, not for the number of components"})
     if rows < 20:
         ctx.undecided("R05.1.floor", f, f.node, "floor:R05.1", f"{rows} configuration rows evaluated, confirmed floor is 20")
+    # the same approximator object used for inputs of different dimensionality: the second call's
+    # backend is the one a fresh object would use (whatever the object remembers between calls)
+    hist = 0
+    for given in [None] + members:
+        for nd1, nd2 in ((3, 2), (2, 3), (3, 1), (1, 4)):
+            self_obj = Obj(cls, {})
+            init = cls.lookup("__init__")
+            if init is not None:
+                ResultInterp(prog, init, {"cca_backend": EnumSym(be_cls, given) if given else None}, self_obj=self_obj).run()
+            seen = []
+            okrun = True
+            for nd in (nd1, nd2):
+                pair = Obj(spcls, {"n_dim": nd, "_prediction_arr": AArr("PRED", False), "_reference_arr": AArr("REF", False), "_pred_labels": (Sym("a"),), "_ref_labels": (Sym("b"), Sym("c"))})
+                it_ = ApproxInterp(prog, f, {pp: pair}, self_obj=self_obj)
+                it_.root.no_inline = {fit.qual, ucls.lookup("__init__").qual}
+                it_.root.lib_as_cc = True
+                o_ = it_.run()
+                if o_.decisions or o_.kind != "return":
+                    okrun = False
+                    break
+                seen.append(sorted({c[1] if isinstance(c[1], str) else repr(c[1]) for c in it_.root.cca_calls}))
+            construct = f"{f.qual}:backend={given},history=n_dim {nd1} then {nd2}"
+            if not okrun:
+                ctx.undecided("R05.1", f, f.node, construct, "second call on the same object not evaluable")
+                continue
+            hist += 1
+            want = [given if given else ("cc3d" if nd2 >= 3 else "scipy")]
+            ctx.decide("R05.1", f, f.node, construct, f"the second call on the same object uses backend {want[0]} (as a fresh object would)", seen[1] == want, {"first_call": seen[0], "second_call": seen[1]})
+    if hist < 12:
+        ctx.undecided("R05.1.floor", f, f.node, "floor:R05.1:history", f"{hist} two-call histories evaluated, confirmed floor is 12")
 
 
 def _is_max_tree(t) -> bool:
@@ -301,12 +338,7 @@ def check_negative_guard(ctx: Ctx):
                 if (isinstance(e.ops[0], (ast.GtE,)) and pc.polarity) or (isinstance(e.ops[0], ast.Lt) and not pc.polarity):
                     guard = pc
         ctx.decide("R05.4", f, c, f"{f.qual}:negative-guard", "the cast to an unsigned dtype is dominated by the rejection of negative labels", guard is not None, {"path_condition": [p.text() for p in pcs]})
-    # dtype sized from both label ranges: the fitting call's argument depends on both sides
-    fits = [c for c in prog.calls_in(f) if (isinstance(c.func, ast.Name) and c.func.id == prog.anchor_name("utils.numpy_utils:_get_smallest_fitting_uint"))]
-    for c in fits:
-        names = _deps(f, c.args[0] if c.args else None)
-        both = any(n.lower().startswith("pred") for n in names) and any(n.lower().startswith("ref") for n in names)
-        ctx.decide("R05.4", f, c, f"{f.qual}:semantic-dtype", "the semantic dtype is sized from the label ranges of both prediction and reference", both, {"depends_on": sorted(names)})
+    # (that the dtype is fitted to the labels of both sides is decided on values by R05.6)
 
 
 def _deps(f: Func, e, depth=0) -> set:
